@@ -1,6 +1,7 @@
 package main
 
 import (
+	"strings"
 	"fmt"
 	"math/rand"
 	"regexp"
@@ -156,6 +157,7 @@ func filteredRegistries(rng *rand.Rand, nRandom int) []namedReg {
 }
 
 type sweepSummary struct {
+	Steered int `json:"steered_witnesses"`
 	Objects      map[string]int
 	Execs        int
 	RunDone      int
@@ -216,13 +218,14 @@ func cmdSweep(args []string) {
 	execEv := make([]ev.M, len(targets))
 	runEv := make([][]ev.M, len(targets))
 	statusSeen := make([]map[string]bool, len(targets)) // lint|status
+	bodySeen := make([]map[string]bool, len(targets))   // lint|status the rule body gave on a fresh instance (whatever the window said)
 	tuples := make([]map[string]bool, len(targets))
 	mixes := make([]map[string]bool, len(targets))
 	parallel(len(targets), func(i int) {
 		t := targets[i]
 		ls := byKind[t.Kind]
 		m, recs := execEvent(ls, allIdx(len(ls)), t, cfg)
-		statusSeen[i], tuples[i], mixes[i] = map[string]bool{}, map[string]bool{}, map[string]bool{}
+		statusSeen[i], tuples[i], mixes[i], bodySeen[i] = map[string]bool{}, map[string]bool{}, map[string]bool{}, map[string]bool{}
 		// registry-level runs
 		for ri, nr := range regs {
 			if tier != "thorough" && only == "" && nr.id != "full" && (i+ri)%12 != 0 {
@@ -263,6 +266,9 @@ func cmdSweep(args []string) {
 		}
 		for k, r := range recs {
 			statusSeen[i][fmt.Sprintf("%s|%d", ls[k].Name, r.Obs)] = true
+			if r.Body >= 3 && r.Body <= 6 && r.Obs != r.Body {
+				bodySeen[i][fmt.Sprintf("%s|%d", ls[k].Name, r.Body)] = true
+			}
 			if r.Obs != int(lint.NA) {
 				tuples[i][fmt.Sprintf("%s|%s|%d|%d|%d", ls[k].Name, r.Cfg, r.Applies, r.Body, r.Obs)] = true
 			}
@@ -291,6 +297,48 @@ func cmdSweep(args []string) {
 	}
 	wExec.Close()
 	wRun.Close()
+	// ---- witnesses for C06: a verdict that a rule body gave but that the framework never let through on this corpus (the object
+	// is dated outside the lint's window, or outside its scope) is steered into the open - the object is re-dated to the start of
+	// the lint's window (or just before its end) and run through the real framework; what is then observed joins the status stream.
+	steered := 0
+	want := map[string]int{} // lint|status -> index of an object whose body gave it
+	for i := range targets {
+		for k := range bodySeen[i] {
+			if _, ok := want[k]; !ok && !allStatus[k] {
+				want[k] = i
+			}
+		}
+	}
+	for k, i := range want {
+		name := k[:strings.LastIndex(k, "|")]
+		t := targets[i]
+		var l *LintRec
+		for j := range byKind[t.Kind] {
+			if byKind[t.Kind][j].Name == name {
+				l = &byKind[t.Kind][j]
+			}
+		}
+		if l == nil {
+			continue
+		}
+		var ats []time.Time
+		if !l.Meta.EffectiveDate.IsZero() {
+			ats = append(ats, l.Meta.EffectiveDate, l.Meta.EffectiveDate.AddDate(0, 1, 0))
+		}
+		if !l.Meta.IneffectiveDate.IsZero() {
+			ats = append(ats, l.Meta.IneffectiveDate.Add(-time.Second))
+		}
+		for _, at := range ats {
+			if at.Year() < 1 {
+				continue
+			}
+			t2, _ := redate(t, at, 0)
+			r := execOne(l, t2, cfg)
+			allStatus[fmt.Sprintf("%s|%d", name, r.Obs)] = true
+			steered++
+		}
+	}
+	sum.Steered = steered
 	sum.StatusMixes, sum.TupleClasses = len(allMixes), len(allTuples)
 	// status stream for C06
 	var st []string
